@@ -122,6 +122,11 @@ def build_program(asn1c, workdir, modname, config, harness_objs, cflags=SAN_CFLA
     """Generate + compile + link one simrun binary. Returns exe path."""
     tag = "%s-%s" % (modname, config)
     gendir = os.path.join(workdir, "gen-" + tag)
+    if modfile is None and modname.startswith("Gen"):
+        # seeded generated module (tools/gen_module.py); rejected / unbuildable ones are skipped and counted by the caller
+        modfile = os.path.join(workdir, modname + ".asn1")
+        with open(modfile, "w") as f:
+            f.write(run([sys.executable, os.path.join(VERIF, "tools", "gen_module.py"), modname[3:], modname]))
     modfile = modfile or os.path.join(VERIF, "corpus", modname + ".asn1")
     ok, out = gen_program(asn1c, [modfile], CONFIGS[config] if cfgflags is None else cfgflags, gendir)
     if not ok:
@@ -143,12 +148,22 @@ def build_programs(workdir, programs, cflags=SAN_CFLAGS, tagsuffix=""):
         fh = ex.submit(build_harness, os.path.join(workdir, "obj-harness" + tagsuffix), cflags)
         asn1c = fa.result(); hobjs = fh.result()
     res = {}
+    SKIPPED.clear()
     def one(p):
-        return ("%s-%s" % p, build_program(asn1c, workdir, p[0], p[1], hobjs, cflags))
+        try:
+            return ("%s-%s" % p, build_program(asn1c, workdir, p[0], p[1], hobjs, cflags))
+        except BuildError as e:
+            if p[0].startswith("Gen"):          # C10's territory (not claimed): skip and count
+                SKIPPED.append(("%s-%s" % p, str(e)[-400:]))
+                return ("%s-%s" % p, None)
+            raise
     with ThreadPoolExecutor(max_workers=6) as ex:
         for tag, exe in ex.map(one, programs):
-            res[tag] = exe
+            if exe: res[tag] = exe
     return asn1c, res
+
+
+SKIPPED = []
 
 
 if __name__ == "__main__":
